@@ -1083,7 +1083,9 @@ func ColumnDefault(c *schema.Column) (cty.Value, error) {
 				}
 				return cty.NumberUIntVal(u), nil
 			case err != nil:
-				return cty.NilVal, err
+				// A number that is not spelled as an integer or a
+				// decimal fraction (e.g. 1e3) is kept as it is written.
+				return schemahcl.RawExprValue(&schemahcl.RawExpr{X: x.V}), nil
 			default:
 				return cty.NumberIntVal(i), nil
 			}
